@@ -1,6 +1,7 @@
 #!/bin/bash
-# usage: tools/confirm_seed.sh C07 1   -> confirms /tmp/seedout/C07/1 in a scratch worktree and copies it to /verif/seeded/C07-1
-pid=$1; i=$2; src=/tmp/seedout/$pid/$i; wt=/tmp/confirm_wt_$pid_$i_$$
+# usage: tools/confirm_seed.sh C07 1 [outroot=/tmp/seedout] [dstindex=1]
+#   confirms <outroot>/C07/1 in a scratch worktree of /repo HEAD and copies it to /verif/seeded/C07-<dstindex>
+pid=$1; i=$2; root=${3:-/tmp/seedout}; j=${4:-$i}; src=$root/$pid/$i; wt=/tmp/confirm_wt_${pid}_${i}_$$
 set -e
 git -C /repo worktree add --detach $wt HEAD >/dev/null 2>&1
 cleanup() { git -C /repo worktree remove --force $wt >/dev/null 2>&1; }
@@ -11,9 +12,9 @@ git apply $src/patch.diff
 tests=$(PYTHONPATH=$wt/src timeout 900 /venv/bin/python -m pytest -q -p no:cacheprovider --timeout=900 --continue-on-collection-errors 2>&1 | tail -1)
 with=$(SRC=$wt/src PYTHONPATH=$wt/src /venv/bin/python $src/demo.py >/dev/null 2>&1; echo $?)
 git checkout -- . 
-echo "$pid-$i: demo_without_rc=$base tests_with='$tests' demo_with_rc=$with"
+echo "$pid-$j: demo_without_rc=$base tests_with='$tests' demo_with_rc=$with"
 if [ "$base" = "0" ] && [ "$with" = "1" ] && echo "$tests" | grep -q "187 passed"; then
-  dst=/verif/seeded/$pid-$i; mkdir -p $dst; cp $src/patch.diff $src/demo.py $dst/
+  dst=/verif/seeded/$pid-$j; mkdir -p $dst; cp $src/patch.diff $src/demo.py $dst/
   python3 - "$src/meta.json" "$dst/meta.json" "$tests" <<'PY'
 import json,sys
 m=json.load(open(sys.argv[1])); m["confirmed_by_lead"]={"scratch_worktree":"git worktree of /repo HEAD under /tmp","demo_without":"exit 0","demo_with":"exit 1","tests_with_change":sys.argv[3]}
